@@ -143,7 +143,7 @@ static void special_kind(const std::string& kind, const vh::Json& ops, vh::Out& 
             if (kind == "mld2" && op == "add") { ICMPv6::multicast_address_record r; r.type = (uint8_t)(1 + c); r.multicast_address = "ff02::1:3"; for (long k = 0; k < c; ++k) r.sources.push_back("2001:db8::5"); r.aux_data.assign((size_t)sz, 0xab); recs.push_back(r); eth.find_pdu<ICMPv6>()->multicast_address_records(recs); }
         } catch (std::exception& e) { thrown = std::string(typeid(e).name()) + ": " + e.what(); }
         vh::W w; w.O().kv("e", "op").kv("op", op).kv("code", c).kv("size", sz).kv("spoof", -1L).kv("applied", true).kv("removed", -1L).kv("thrown", thrown).kraw("data", "[]")
-            .kraw("list", "[]").kv("found", false).kraw("fitem", "[0,[],0]").kv("listed", false);
+            .kraw("list", "[]").kv("found", false).kraw("fitem", "[0,[],0]").kv("listed", false).kv("wired", true);
         Bytes b; ser_json(w, root, b); w.key("rt").O().kv("ok", true).kv("listed", false).kraw("list", "[]").E(); w.E(); out.event(w);
     }
 }
@@ -153,7 +153,7 @@ static void scenario(const vh::Json& sc, vh::Out& out, vh::Rng& rng, const vh::A
     out.begin("\"kind\":\"" + kind + "\"");
     if (kind == "llc" || kind == "mld2") { special_kind(kind, sc["ops"], out, rng); out.end(); return; }
     Kind* K = make_kind(kind); if (!K) { out.discard(); return; }
-    const vh::Json& ops = sc["ops"];
+    const vh::Json& ops = sc["ops"]; const bool lazy = sc["lazy"].truth();
     for (size_t i = 0; i < ops.size(); ++i) {
         const std::string op = ops[i]["op"].str(); long ac = ops[i]["code"].num(), sz = ops[i]["size"].num(), spoof = ops[i]["spoof"].num();
         long c = K->concrete(ac); Bytes data; for (long k = 0; k < sz; ++k) data.push_back((uint8_t)(1 + rng.below(255)));
@@ -168,6 +168,12 @@ static void scenario(const vh::Json& sc, vh::Out& out, vh::Rng& rng, const vh::A
         Item f; bool found = false; try { found = K->find(c, f); } catch (std::exception&) {}
         w.kv("found", found); w.key("fitem").A(); if (found) w.v(f.code).bytes(f.data.begin(), f.data.end()).v(f.lenfield); else w.v(0).A().E().v(0); w.E();
         w.kv("listed", true);
+        // lazy histories serialise only where the history says so: edits made BETWEEN two serialisations must show up in the
+        // second one (anything a layer caches at serialisation time has to notice them)
+        bool wired = !lazy || op == "ser";
+        w.kv("wired", wired);
+        if (!wired) { w.key("ser").O().kv("thrown", "").kv("size", 0).kv("len", 0).kv("hsum", 0).kv("payload_ok", true).kraw("overwrite", "[]").E();
+                      w.key("rt").O().kv("ok", true).kv("listed", true).kraw("list", "[]").E(); w.E(); out.event(w); continue; }
         Bytes bytes; ser_json(w, K->root(), bytes);
         w.key("rt").O();
         if (bytes.empty()) w.kv("ok", false).kv("listed", true).kraw("list", "[]");
